@@ -112,6 +112,9 @@ TARGETS = {
     "68hc11": dict(cpu="6811", db="fcb", dw=("fdb", "big"), refs=["ldaa", "jmp3", "dw"], res="rmb"),
     "68000": dict(cpu="68000", db="dc.b", dw=("dc.w", "big"), refs=["bra", "jmp68", "dw", "dl"], res="ds.b"),
     "8086": dict(cpu="8086", db="db", dw=("dw", "little"), refs=["jmp86", "dw"], res="db"),
+    # 68000 with PADDING ON: odd-length fillers, labels on word data (moved behind the padding byte),
+    # placed around $8000 where JMP switches between absolute short and long
+    "68000p": dict(cpu="68000", db="dc.b", dw=("dc.w", "big"), refs=["jmp68", "jmp68", "dl", "bra"], res="ds.b"),
 }
 
 
@@ -122,6 +125,8 @@ def gen_real(rng, tname):
     if tname == "68000":
         lines.append("\tpadding off")
     base = rng.choice([0, 0x40, 0x80, 0xe0, 0x100, 0x1000])
+    if tname == "68000p":
+        base = rng.choice([0x7e00, 0x7f00, 0x7f80, 0x7fc0, 0x7ff0, 0x8000 - 2 * rng.randrange(1, 200)])
     lines.append("\torg %d" % base)
     items = []  # ('label', n) / ('ref', id, kind, n) / filler
     pending = list(range(nlab))
@@ -141,20 +146,27 @@ def gen_real(rng, tname):
         plan.append(("label", n))
     db = t["db"]
     for it in plan:
-        if it[0] == "label":
+        if it[0] == "label" and tname == "68000p":
+            lines.append("lab%d:\tdc.w %d,%d" % (it[1], 0xEE00 | (it[1] >> 8), ((it[1] & 255) << 8) | 0x77))
+        elif it[0] == "label":
             lines.append("lab%d:" % it[1])
             lines.append("\t%s 238,%d,%d,119" % (db, it[1] >> 8, it[1] & 255))     # EE hi lo 77
         elif it[0] == "fill":
             k = it[1]
             if tname == "68000" and k % 2:
                 k += 1
+            if tname == "68000p":
+                k = rng.choice([1, 1, 3, 5, k, k | 1])
             while k > 0:
                 c = min(k, 64)
                 lines.append("\t%s %s" % (db, ",".join(str(rng.choice([1, 2, 3, 0x11, 0x22, 0x41])) for _ in range(c))))
                 k -= c
         else:
             _, i, kind, n = it
-            lines.append("\t%s 221,%d,%d,102" % (db, i >> 8, i & 255))            # DD hi lo 66
+            if tname == "68000p":
+                lines.append("\tdc.w %d,%d" % (0xDD00 | (i >> 8), ((i & 255) << 8) | 0x66))
+            else:
+                lines.append("\t%s 221,%d,%d,102" % (db, i >> 8, i & 255))            # DD hi lo 66
             if kind == "dw":
                 lines.append("\t%s lab%d" % (t["dw"][0], n))
             elif kind == "dl":
@@ -166,8 +178,88 @@ def gen_real(rng, tname):
             elif kind == "bra":
                 lines.append("\tbra lab%d" % n)
             # trailing guard so that a decoder never reads past the image
-            lines.append("\t%s 1,1,1,1" % db)
+            lines.append("\tdc.w 257,257" if tname == "68000p" else "\t%s 1,1,1,1" % db)
     return "\n".join(lines) + "\n", plan
+
+
+SWEEP = [("68000", "bra", "dc.b", 2), ("68000", "bsr", "dc.b", 2), ("68000", "bne", "dc.b", 2), ("6809", "bra", "fcb", 1),
+         ("6809", "lbra", "fcb", 1), ("8086", "jmp", "db", 1), ("6502", "bne", "byt", 1), ("6811", "bra", "fcb", 1)]
+
+
+def gen_sweep(tcpu, mnem, db, step):
+    """every forward and backward distance around the 8-bit displacement limits, one snippet each"""
+    lines = ["\tcpu %s" % tcpu]
+    if tcpu == "68000":
+        lines.append("\tpadding off")
+    snippets = []
+    base = 0x40
+    sid = 0
+    fixed_short = (tcpu, mnem) in (("6809", "bra"), ("6502", "bne"), ("6811", "bra"))
+    for fill in list(range(100, 140, step)) + list(range(240, 262, step)):
+        for direction in ("fwd", "bwd"):
+            if fixed_short and ((direction == "fwd" and fill > 127) or (direction == "bwd" and fill + 10 > 128)):
+                continue        # out of reach of an 8-bit displacement: legitimately rejected, not part of this sweep
+            lines.append("\torg %d" % base)
+            if direction == "fwd":
+                lines.append("\t%s 221,%d,%d,102" % (db, sid >> 8, sid & 255))
+                lines.append("\t%s sw%d" % (mnem, sid))
+                k = fill
+                while k > 0:
+                    c = min(k, 50)
+                    lines.append("\t%s %s" % (db, ",".join(["1"] * c)))
+                    k -= c
+                lines.append("sw%d:" % sid)
+                lines.append("\t%s 238,%d,%d,119" % (db, sid >> 8, sid & 255))
+            else:
+                lines.append("sw%d:" % sid)
+                lines.append("\t%s 238,%d,%d,119" % (db, sid >> 8, sid & 255))
+                k = fill
+                while k > 0:
+                    c = min(k, 50)
+                    lines.append("\t%s %s" % (db, ",".join(["1"] * c)))
+                    k -= c
+                lines.append("\t%s 221,%d,%d,102" % (db, sid >> 8, sid & 255))
+                lines.append("\t%s sw%d" % (mnem, sid))
+                lines.append("\t%s 1,1,1,1" % db)
+            snippets.append((sid, direction, fill))
+            sid += 1
+            base += 0x200
+    return "\n".join(lines) + "\n", snippets
+
+
+def decode_branch(img, a, tcpu, mnem):
+    """target address a relative branch at a encodes, or None when the opcode form is not one of the known ones"""
+    g = lambda k: img.get((1, a + k))
+    def s8(x): return x - 256 if x >= 128 else x
+    def s16(x): return x - 65536 if x >= 32768 else x
+    if None in (g(0), g(1)):
+        return None
+    if tcpu == "68000":
+        op = {"bra": 0x60, "bsr": 0x61, "bne": 0x66}[mnem]
+        if g(0) != op:
+            return None
+        if g(1) not in (0, 0xFF):
+            return a + 2 + s8(g(1))
+        if g(1) == 0 and None not in (g(2), g(3)):
+            return a + 2 + s16((g(2) << 8) | g(3))
+        return None
+    if tcpu in ("6809", "6811"):
+        if mnem == "bra" and g(0) == 0x20:
+            return a + 2 + s8(g(1))
+        if mnem == "lbra" and g(0) == 0x16 and g(2) is not None:
+            return (a + 3 + s16((g(1) << 8) | g(2))) & 0xFFFF
+        return None
+    if tcpu == "8086":
+        if g(0) == 0xEB:
+            return (a + 2 + s8(g(1))) & 0xFFFF
+        if g(0) == 0xE9 and g(2) is not None:
+            return (a + 3 + s16(g(1) | (g(2) << 8))) & 0xFFFF
+        return None
+    if tcpu == "6502":
+        if g(0) == 0xD0:
+            return a + 2 + s8(g(1))
+        return None
+    return None
 
 
 def find_all(img_bytes, base_addrs, pat):
@@ -428,6 +520,67 @@ def run(args):
                     os.unlink(x)
             if len(samples) < 5 and len(plan) > 8:
                 samples.append(dict(kind="real/" + tname, source=text[:600], labels=lab_addr))
+        # ---- part D: every branch distance around the displacement limits
+        dist["sweep_snippets"] = 0
+        dist["sweep_rejected_lines"] = 0
+        for (tcpu, mnem, db, step) in SWEEP:
+            text, snippets = gen_sweep(tcpu, mnem, db, step)
+            f = os.path.join(wd, "sw_%s_%s.asm" % (tcpu, mnem))
+            open(f, "w").write(text)
+            p1 = f[:-4] + ".p"
+            src_lines = text.split("\n")
+            errlines = set()
+            bad_other = []
+            for _round in range(8):
+                rc, so, se = common.run_tool(bdir, "asl", ["-q", "-E", "!2", f, "-o", p1], wd, env=env_cap, timeout=60)
+                if rc == 0:
+                    break
+                # fixed-size short branches legitimately reject far targets (reported only once no repass is
+                # pending, so several rounds may be needed): replace those lines by filler of the same size
+                new = set(int(x) for x in re.findall(rb"\((\d+)\)[^\n]*: error", se)) - errlines
+                if not new:
+                    break
+                bad_other = [ln for ln in new if not src_lines[ln - 1].strip().startswith(mnem)]
+                if bad_other:
+                    break
+                errlines |= new
+                kept = [l if (i + 1) not in errlines else "\t%s 0,0" % db for i, l in enumerate(src_lines)]
+                open(f, "w").write("\n".join(kept))
+            dist["sweep_rejected_lines"] += len(errlines)
+            if bad_other:
+                spec_fail.append(dict(sig=None, why="sweep source rejected at non-branch lines %s" % sorted(bad_other)[:5], source=text[:3000]))
+                continue
+            if rc != 0 or not os.path.exists(p1):
+                spec_fail.append(dict(sig=None, why="sweep source does not assemble: rc=%s" % rc, source=text[:3000]))
+                continue
+            img = image_of(open(p1, "rb").read())
+            addrs = sorted(a for (s, a) in img if s == 1)
+            rejected_ids = set()
+            for ln in errlines:
+                m2 = re.search(r"sw(\d+)", src_lines[ln - 1])
+                if m2:
+                    rejected_ids.add(int(m2.group(1)))
+            for (sid, direction, fill) in snippets:
+                dist["sweep_snippets"] += 1
+                if sid in rejected_ids:
+                    # a rejection is only legitimate when the distance really exceeds the 8-bit range
+                    d = fill if direction == "fwd" else -(fill + 4 + 2)
+                    if -120 <= d <= 120 and mnem in ("bne",) and tcpu == "6502":
+                        spec_fail.append(dict(sig=None, why="%s %s: branch over %d bytes rejected although it is in range" % (tcpu, mnem, d), source=text[:2000]))
+                    continue
+                lh = find_all(img, addrs, [238, sid >> 8, sid & 255, 119])
+                rh = find_all(img, addrs, [221, sid >> 8, sid & 255, 102])
+                if len(lh) != 1 or len(rh) != 1:
+                    continue
+                tgt = decode_branch(img, rh[0] + 4, tcpu, mnem)
+                if tgt is None:
+                    spec_fail.append(dict(sig=None, why="%s %s (%s, filler %d): opcode at %d not decodable: %s" % (tcpu, mnem, direction, fill, rh[0] + 4, [img.get((1, rh[0] + 4 + k)) for k in range(4)]), source="sweep %s %s filler=%d %s" % (tcpu, mnem, fill, direction)))
+                elif tgt != lh[0]:
+                    spec_fail.append(dict(sig=None, why="%s %s (%s, filler %d bytes): branch at %d leads to %d, the label is at %d" % (tcpu, mnem, direction, fill, rh[0] + 4, tgt, lh[0]),
+                                          source="\tcpu %s ; sweep snippet: %s over %d filler bytes, %s" % (tcpu, mnem, fill, direction)))
+            for x in (f, p1):
+                if os.path.exists(x):
+                    os.unlink(x)
         # ---- golden corpus: extra pass changes nothing
         tests = common.corpus_tests()
         rng.shuffle(tests)
